@@ -341,6 +341,13 @@ func (c *Cache) mqUnsubscribe(v interface{}) {
 	c.mu.Lock()
 	defer c.mu.Unlock()
 
+	// Quick exit if the event subscription is already removed. It may have
+	// been queued for unsubscription a second time, if it was used again
+	// while a previous call was waiting for the lock.
+	if c.eventSubs[eventSub.ResourceName] != eventSub {
+		return
+	}
+
 	if !eventSub.mqUnsubscribe() {
 		return
 	}
